@@ -42,7 +42,7 @@ var c05SyncEntries = []string{"readHeader", "headersFromFrame", "adapter.execute
 // entry point properties
 func c05Framed(entry string) bool {
 	switch entry {
-	case "nats.client", "nats.server", "http", "http.client", "framed.processor", "nats.sub", "stomp.sub", "adapter.stream", "simple.stream":
+	case "nats.client", "nats.server", "http", "http.client", "framed.processor", "nats.sub", "stomp.sub", "adapter.stream", "simple.stream", "adapter.sessions":
 		return true
 	}
 	return false
@@ -50,7 +50,7 @@ func c05Framed(entry string) bool {
 
 func c05IsResponse(entry string) bool {
 	switch entry {
-	case "adapter.execute", "nats.client", "client.reply", "adapter.stream", "http.client":
+	case "adapter.execute", "nats.client", "client.reply", "adapter.stream", "http.client", "adapter.sessions":
 		return true
 	}
 	return false
